@@ -5,8 +5,13 @@
 -/
 import HL.Model.Refs
 import HL.Spec.Occurrences
+import HL.Lemmas.Text
 namespace HL.Lemmas.Refs
 open HL HL.Ast HL.Refs HL.Spec.Occ
+
+-- The lines of the text the positions of one file are converted with (implicit in every lemma
+-- about one file).
+variable {lns : Lines}
 
 /-! ### sorting, de-duplication -/
 
@@ -225,13 +230,13 @@ theorem directiveNodes_eq (d : Directive) :
 def Match (n : TNode) (kind : Kind) (name : Bytes) (incl : Bool) : Prop :=
   n.kind = kind ∧ n.name = name ∧ (incl = true ∨ n.decl = false)
 
-def locOf (path : Path) (n : TNode) : Loc := ⟨path, toLsp n.range⟩
+def locOf (lns : Lines) (path : Path) (n : TNode) : Loc := ⟨path, toLsp lns n.range⟩
 
 /-! accounts -/
 
 theorem posting_account (p : Posting) (name : Bytes) (incl : Bool) (path : Path) (l : Loc) :
-    (∃ n ∈ postingNodes p, Match n .account name incl ∧ l = locOf path n) ↔
-    (p.account.name = name ∧ l = ⟨path, toLsp (accountNameRange p.account)⟩) := by
+    (∃ n ∈ postingNodes p, Match n .account name incl ∧ l = locOf lns path n) ↔
+    (p.account.name = name ∧ l = ⟨path, toLsp lns (accountNameRange p.account)⟩) := by
   constructor
   · rintro ⟨n, hn, ⟨hk, hnm, _⟩, hl⟩
     rcases (mem_postingNodes p n).mp hn with h | ⟨c, _, _, h⟩
@@ -241,8 +246,8 @@ theorem posting_account (p : Posting) (name : Bytes) (incl : Bool) (path : Path)
     exact ⟨acctNode p.account false, (mem_postingNodes p _).mpr (Or.inl rfl), ⟨rfl, hnm, Or.inr rfl⟩, hl⟩
 
 theorem tx_account (tx : Transaction) (name : Bytes) (incl : Bool) (path : Path) (l : Loc) :
-    (∃ n ∈ txNodes tx, Match n .account name incl ∧ l = locOf path n) ↔
-    ∃ p ∈ tx.postings, p.account.name = name ∧ l = ⟨path, toLsp (accountNameRange p.account)⟩ := by
+    (∃ n ∈ txNodes tx, Match n .account name incl ∧ l = locOf lns path n) ↔
+    ∃ p ∈ tx.postings, p.account.name = name ∧ l = ⟨path, toLsp lns (accountNameRange p.account)⟩ := by
   constructor
   · rintro ⟨n, hn, hm, hl⟩
     rcases (mem_txNodes tx n).mp hn with ⟨_, h⟩ | ⟨p, hp, h⟩
@@ -253,8 +258,8 @@ theorem tx_account (tx : Transaction) (name : Bytes) (incl : Bool) (path : Path)
     exact ⟨n, (mem_txNodes tx n).mpr (Or.inr ⟨p, hp, hn⟩), hm, hl⟩
 
 theorem dir_account (d : Directive) (name : Bytes) (incl : Bool) (path : Path) (l : Loc) :
-    (∃ n ∈ directiveNodes d, Match n .account name incl ∧ l = locOf path n) ↔
-    (incl = true ∧ ∃ a t c s r, d = .account a t c s r ∧ a.name = name ∧ l = ⟨path, toLsp (accountNameRange a)⟩) := by
+    (∃ n ∈ directiveNodes d, Match n .account name incl ∧ l = locOf lns path n) ↔
+    (incl = true ∧ ∃ a t c s r, d = .account a t c s r ∧ a.name = name ∧ l = ⟨path, toLsp lns (accountNameRange a)⟩) := by
   cases d with
   | account a t c s r =>
     simp only [directiveNodes_eq, List.mem_singleton]
@@ -298,7 +303,7 @@ theorem dir_account (d : Directive) (name : Bytes) (incl : Bool) (path : Path) (
     · rintro ⟨_, a', t', c', s', r', he, _⟩; cases he
 
 theorem mem_accountLocs (name : Bytes) (incl : Bool) (path : Path) (j : Journal) (l : Loc) :
-    l ∈ accountLocs name incl path j ↔ ∃ n ∈ treeTNodes j, Match n .account name incl ∧ l = locOf path n := by
+    l ∈ accountLocs lns name incl path j ↔ ∃ n ∈ treeTNodes j, Match n .account name incl ∧ l = locOf lns path n := by
   simp only [treeTNodes, List.mem_append, List.mem_flatMap]
   constructor
   · intro h
@@ -340,8 +345,8 @@ theorem mem_accountLocs (name : Bytes) (incl : Bool) (path : Path) (j : Journal)
 /-! commodities -/
 
 theorem posting_commodity (p : Posting) (name : Bytes) (hne : name ≠ []) (incl : Bool) (path : Path) (l : Loc) :
-    (∃ n ∈ postingNodes p, Match n .commodity name incl ∧ l = locOf path n) ↔
-    ∃ c ∈ postingCommodities p, c.symbol = name ∧ l = ⟨path, toLsp (ARange.ofRng c.range)⟩ := by
+    (∃ n ∈ postingNodes p, Match n .commodity name incl ∧ l = locOf lns path n) ↔
+    ∃ c ∈ postingCommodities p, c.symbol = name ∧ l = ⟨path, toLsp lns (ARange.ofRng c.range)⟩ := by
   constructor
   · rintro ⟨n, hn, ⟨hk, hnm, _⟩, hl⟩
     rcases (mem_postingNodes p n).mp hn with h | ⟨c, hc, _, h⟩
@@ -352,8 +357,8 @@ theorem posting_commodity (p : Posting) (name : Bytes) (hne : name ≠ []) (incl
       ⟨rfl, hnm, Or.inr rfl⟩, hl⟩
 
 theorem tx_commodity (tx : Transaction) (name : Bytes) (hne : name ≠ []) (incl : Bool) (path : Path) (l : Loc) :
-    (∃ n ∈ txNodes tx, Match n .commodity name incl ∧ l = locOf path n) ↔
-    ∃ p ∈ tx.postings, ∃ c ∈ postingCommodities p, c.symbol = name ∧ l = ⟨path, toLsp (ARange.ofRng c.range)⟩ := by
+    (∃ n ∈ txNodes tx, Match n .commodity name incl ∧ l = locOf lns path n) ↔
+    ∃ p ∈ tx.postings, ∃ c ∈ postingCommodities p, c.symbol = name ∧ l = ⟨path, toLsp lns (ARange.ofRng c.range)⟩ := by
   constructor
   · rintro ⟨n, hn, hm, hl⟩
     rcases (mem_txNodes tx n).mp hn with ⟨_, h⟩ | ⟨p, hp, h⟩
@@ -364,8 +369,8 @@ theorem tx_commodity (tx : Transaction) (name : Bytes) (hne : name ≠ []) (incl
     exact ⟨n, (mem_txNodes tx n).mpr (Or.inr ⟨p, hp, hn⟩), hm, hl⟩
 
 theorem dir_commodity (d : Directive) (name : Bytes) (hne : name ≠ []) (incl : Bool) (path : Path) (l : Loc) :
-    (∃ n ∈ directiveNodes d, Match n .commodity name incl ∧ l = locOf path n) ↔
-    l ∈ directiveCommodityLocs name incl path d := by
+    (∃ n ∈ directiveNodes d, Match n .commodity name incl ∧ l = locOf lns path n) ↔
+    l ∈ directiveCommodityLocs lns name incl path d := by
   cases d with
   | account a t c s r =>
     simp only [directiveNodes_eq, List.mem_singleton, directiveCommodityLocs]
@@ -431,7 +436,7 @@ theorem dir_commodity (d : Directive) (name : Bytes) (hne : name ≠ []) (incl :
     · intro h; cases h
 
 theorem mem_commodityLocs (name : Bytes) (hne : name ≠ []) (incl : Bool) (path : Path) (j : Journal) (l : Loc) :
-    l ∈ commodityLocs name incl path j ↔ ∃ n ∈ treeTNodes j, Match n .commodity name incl ∧ l = locOf path n := by
+    l ∈ commodityLocs lns name incl path j ↔ ∃ n ∈ treeTNodes j, Match n .commodity name incl ∧ l = locOf lns path n := by
   simp only [treeTNodes, List.mem_append, List.mem_flatMap, commodityLocs, List.mem_filterMap]
   constructor
   · rintro (⟨d, hd, h⟩ | ⟨tx, htx, p, hp, c, hc, h⟩)
@@ -454,7 +459,7 @@ theorem mem_commodityLocs (name : Bytes) (hne : name ≠ []) (incl : Bool) (path
 /-! payees -/
 
 theorem mem_payeeLocs (name : Bytes) (hne : name ≠ []) (incl : Bool) (path : Path) (j : Journal) (l : Loc) :
-    l ∈ payeeLocs name path j ↔ ∃ n ∈ treeTNodes j, Match n .payee name incl ∧ l = locOf path n := by
+    l ∈ payeeLocs lns name path j ↔ ∃ n ∈ treeTNodes j, Match n .payee name incl ∧ l = locOf lns path n := by
   simp only [treeTNodes, List.mem_append, List.mem_flatMap, payeeLocs, List.mem_filterMap]
   constructor
   · rintro ⟨tx, htx, h⟩
@@ -494,7 +499,7 @@ theorem mem_payeeLocs (name : Bytes) (hne : name ≠ []) (incl : Bool) (path : P
 
 /-! ### findDefinitionTarget -/
 
-def tgt (n : TNode) : Target := ⟨n.kind, n.name, toLsp n.range⟩
+def tgt (lns : Lines) (n : TNode) : Target := ⟨n.kind, n.name, toLsp lns n.range⟩
 
 theorem u32pred_of_sane (n : Nat) (h1 : 1 ≤ n) (h2 : n ≤ 4294967296) : u32pred n = n - 1 := by
   unfold u32pred
@@ -523,24 +528,95 @@ theorem inRange_arith (L C sl sc ec : Nat) (h1 : 1 ≤ sl) (h4 : 1 ≤ sc) (h5 :
     have : L + 1 < sl ∨ sl < L + 1 := by omega
     rcases this with h | h <;> simp [e1, h]
 
-theorem positionInRange_eq_has (n : TNode) (hs : n.sane = true) (p : LPos) :
-    positionInRange p n.range = n.toSpan.has p := by
+/-- The rune index `UTF16OffsetToRuneOffset` computes for the UTF-16 length of a whole prefix
+    is the length of that prefix. -/
+theorem takeU16_u16len_take (l : HL.Text.Txt) (k : Nat) (hk : k ≤ l.length) :
+    HL.Text.takeU16 l (HL.Text.u16len (l.take k)) = k := by
+  induction l generalizing k with
+  | nil => simp at hk; subst hk; simp [HL.Text.takeU16]
+  | cons c cs ih =>
+    cases k with
+    | zero => simp [HL.Text.takeU16, HL.Text.u16len]
+    | succ k =>
+      have hp := HL.Lemmas.Text.u16w_pos c
+      simp only [List.take_succ_cons, HL.Text.u16len, HL.Text.takeU16]
+      have h0 : ¬ (HL.Text.u16w c + HL.Text.u16len (cs.take k) = 0) := by omega
+      simp only [h0, if_false, Nat.add_sub_cancel_left, ih k (by simpa using hk)]
+      omega
+
+/-- Prefixes inside the line are ordered by UTF-16 length exactly as by length. -/
+theorem u16len_take_le_iff (l : HL.Text.Txt) {a k : Nat} (ha : a ≤ l.length) (hk : k ≤ l.length) :
+    HL.Text.u16len (l.take a) ≤ HL.Text.u16len (l.take k) ↔ a ≤ k := by
+  constructor
+  · intro h
+    rcases Nat.lt_or_ge k a with hlt | hge
+    · have := HL.Lemmas.Text.u16len_take_lt l a k hlt ha
+      omega
+    · exact hge
+  · intro h
+    rcases Nat.lt_or_ge a k with hlt | hge
+    · exact Nat.le_of_lt (HL.Lemmas.Text.u16len_take_lt l k a hlt hk)
+    · have : a = k := by omega
+      subst this; exact Nat.le_refl _
+
+theorem u16len_take_le' (l : HL.Text.Txt) (k : Nat) : HL.Text.u16len (l.take k) ≤ HL.Text.u16len l := by
+  have h : HL.Text.u16len l = HL.Text.u16len (l.take k) + HL.Text.u16len (l.drop k) := by
+    rw [← HL.Lemmas.Text.u16len_append, List.take_append_drop]
+  omega
+
+/-- The cursor test of the code — cursor converted to a rune column, compared with the rune
+    columns of the node — is the cursor test of the client — UTF-16 cursor against the UTF-16
+    range that is sent — for every cursor that is a position of the text. -/
+theorem positionInRange_eq_has (n : TNode) (hs : n.sane lns = true) (p : LPos) (hp : cursorOK lns p) :
+    positionInRange (runePos lns p) n.range = (n.toSpan lns).has p := by
   simp only [TNode.sane, Bool.and_eq_true, decide_eq_true_eq, beq_iff_eq] at hs
-  obtain ⟨⟨⟨⟨⟨h1, h2⟩, h3⟩, h4⟩, h5⟩, h6⟩ := hs
+  obtain ⟨⟨⟨⟨⟨⟨h1, h2⟩, h3⟩, h4⟩, h5⟩, h6⟩, h7⟩ := hs
   have a1 := u32pred_of_sane _ h1 h3
   have a3 := u32pred_of_sane _ h4 (by omega)
   have a4 := u32pred_of_sane n.range.ec (by omega) h6
-  have := inRange_arith p.line p.char n.range.sl n.range.sc n.range.ec h1 h4 h5
-  simp only [Span.has, TNode.toSpan, toLsp, a1, a3, a4, ← h2]
-  rw [← this]
-  congr 1
-  cases hr : n.range
-  simp only [hr] at h2
-  simp [h2]
+  have hline : (runePos lns p).line = p.line := by
+    unfold runePos; split <;> rfl
+  have hrange : n.range = ⟨n.range.sl, n.range.sc, n.range.sl, n.range.ec⟩ := by
+    cases hr : n.range
+    simp only [hr] at h2
+    simp [h2]
+  have harith := inRange_arith p.line (runePos lns p).char n.range.sl n.range.sc n.range.ec h1 h4 h5
+  have hpos : runePos lns p = ⟨p.line, (runePos lns p).char⟩ := by
+    rw [← hline]
+  have h0 : n.range.sl ≠ 0 := by omega
+  -- the two characters that are sent and the rune column of the cursor
+  have key : n.range.sl - 1 = p.line →
+      ((n.range.sc - 1 ≤ (runePos lns p).char ↔ convChar lns n.range.sl n.range.sc ≤ p.char) ∧
+       ((runePos lns p).char ≤ n.range.ec - 1 ↔ p.char ≤ convChar lns n.range.sl n.range.ec)) := by
+    intro hl
+    unfold convChar runePos
+    simp only [h0, if_false]
+    rw [hl] at h7 ⊢
+    cases hln : lns[p.line]? with
+    | none => simp [a3, a4]
+    | some ln =>
+      simp only [hln, Bool.and_eq_true, decide_eq_true_eq] at h7 ⊢
+      obtain ⟨k, hk, hc⟩ := hp ln hln
+      have e1 : HL.Text.u16len (ln.take (n.range.sc - 1)) % 4294967296 = HL.Text.u16len (ln.take (n.range.sc - 1)) :=
+        Nat.mod_eq_of_lt (by have := u16len_take_le' ln (n.range.sc - 1); omega)
+      have e2 : HL.Text.u16len (ln.take (n.range.ec - 1)) % 4294967296 = HL.Text.u16len (ln.take (n.range.ec - 1)) :=
+        Nat.mod_eq_of_lt (by have := u16len_take_le' ln (n.range.ec - 1); omega)
+      rw [e1, e2, hc, takeU16_u16len_take ln k hk]
+      exact ⟨(u16len_take_le_iff ln (by omega) hk).symm, (u16len_take_le_iff ln hk h7.1).symm⟩
+  rw [hrange, hpos, harith]
+  simp only [Span.has, TNode.toSpan, toLsp, a1, ← h2]
+  by_cases hl : n.range.sl - 1 = p.line
+  · obtain ⟨k1, k2⟩ := key hl
+    simp only [hl, beq_self_eq_true, Bool.true_and]
+    congr 1
+    · exact decide_eq_decide.mpr k1
+    · exact decide_eq_decide.mpr k2
+  · have : (n.range.sl - 1 == p.line) = false := by simpa using hl
+    simp [this]
 
 theorem postings_sound (pos : LPos) (ps : List Posting) (t : Target)
-    (h : targetInPostings pos ps = some t) :
-    ∃ p ∈ ps, ∃ n ∈ postingNodes p, positionInRange pos n.range = true ∧ t = tgt n := by
+    (h : targetInPostings lns pos ps = some t) :
+    ∃ p ∈ ps, ∃ n ∈ postingNodes p, positionInRange pos n.range = true ∧ t = tgt lns n := by
   induction ps with
   | nil => simp [targetInPostings] at h
   | cons p ps ih =>
@@ -561,7 +637,7 @@ theorem postings_sound (pos : LPos) (ps : List Posting) (t : Target)
 
 theorem postings_complete (pos : LPos) (ps : List Posting) (p : Posting) (n : TNode)
     (hp : p ∈ ps) (hn : n ∈ postingNodes p) (hr : positionInRange pos n.range = true) :
-    (targetInPostings pos ps).isSome = true := by
+    (targetInPostings lns pos ps).isSome = true := by
   induction ps with
   | nil => cases hp
   | cons q qs ih =>
@@ -585,8 +661,8 @@ theorem postings_complete (pos : LPos) (ps : List Posting) (p : Posting) (n : TN
         · exact ih hp
 
 theorem txs_sound (pos : LPos) (txs : List Transaction) (t : Target)
-    (h : targetInTxs pos txs = some t) :
-    ∃ tx ∈ txs, ∃ n ∈ txNodes tx, positionInRange pos n.range = true ∧ t = tgt n := by
+    (h : targetInTxs lns pos txs = some t) :
+    ∃ tx ∈ txs, ∃ n ∈ txNodes tx, positionInRange pos n.range = true ∧ t = tgt lns n := by
   induction txs with
   | nil => simp [targetInTxs] at h
   | cons tx txs ih =>
@@ -607,7 +683,7 @@ theorem txs_sound (pos : LPos) (txs : List Transaction) (t : Target)
 
 theorem txs_complete (pos : LPos) (txs : List Transaction) (tx : Transaction) (n : TNode)
     (htx : tx ∈ txs) (hn : n ∈ txNodes tx) (hr : positionInRange pos n.range = true) :
-    (targetInTxs pos txs).isSome = true := by
+    (targetInTxs lns pos txs).isSome = true := by
   induction txs with
   | nil => cases htx
   | cons q qs ih =>
@@ -626,12 +702,12 @@ theorem txs_complete (pos : LPos) (txs : List Transaction) (tx : Transaction) (n
             apply hpay
             simp only [Bool.and_eq_true, bne_iff_ne, ne_eq]
             exact ⟨hne, hr⟩
-          · have := postings_complete pos tx.postings p n hp h hr
+          · have := postings_complete (lns := lns) pos tx.postings p n hp h hr
             rw [hnone] at this; cases this
         · exact ih htx
 
-theorem directive_sound (pos : LPos) (d : Directive) (t : Target) (h : targetInDirective pos d = some t) :
-    ∃ n ∈ directiveNodes d, positionInRange pos n.range = true ∧ t = tgt n := by
+theorem directive_sound (pos : LPos) (d : Directive) (t : Target) (h : targetInDirective lns pos d = some t) :
+    ∃ n ∈ directiveNodes d, positionInRange pos n.range = true ∧ t = tgt lns n := by
   cases d with
   | account a tg c s r =>
     simp only [targetInDirective] at h
@@ -665,7 +741,7 @@ theorem directive_sound (pos : LPos) (d : Directive) (t : Target) (h : targetInD
   | defaultCommodity s f r => simp [targetInDirective] at h
 
 theorem directive_complete (pos : LPos) (d : Directive) (n : TNode) (hn : n ∈ directiveNodes d)
-    (hr : positionInRange pos n.range = true) : (targetInDirective pos d).isSome = true := by
+    (hr : positionInRange pos n.range = true) : (targetInDirective lns pos d).isSome = true := by
   cases d with
   | account a tg c s r =>
     simp only [directiveNodes_eq, List.mem_singleton] at hn
@@ -704,8 +780,8 @@ theorem directive_complete (pos : LPos) (d : Directive) (n : TNode) (hn : n ∈ 
   | defaultCommodity s f r => simp [directiveNodes_eq] at hn
 
 theorem directives_sound (pos : LPos) (ds : List Directive) (t : Target)
-    (h : targetInDirectives pos ds = some t) :
-    ∃ d ∈ ds, ∃ n ∈ directiveNodes d, positionInRange pos n.range = true ∧ t = tgt n := by
+    (h : targetInDirectives lns pos ds = some t) :
+    ∃ d ∈ ds, ∃ n ∈ directiveNodes d, positionInRange pos n.range = true ∧ t = tgt lns n := by
   induction ds with
   | nil => simp [targetInDirectives] at h
   | cons d ds ih =>
@@ -721,7 +797,7 @@ theorem directives_sound (pos : LPos) (ds : List Directive) (t : Target)
 
 theorem directives_complete (pos : LPos) (ds : List Directive) (d : Directive) (n : TNode)
     (hd : d ∈ ds) (hn : n ∈ directiveNodes d) (hr : positionInRange pos n.range = true) :
-    (targetInDirectives pos ds).isSome = true := by
+    (targetInDirectives lns pos ds).isSome = true := by
   induction ds with
   | nil => cases hd
   | cons q qs ih =>
@@ -731,14 +807,14 @@ theorem directives_complete (pos : LPos) (ds : List Directive) (d : Directive) (
     · rename_i hnone
       simp only [List.mem_cons] at hd
       rcases hd with rfl | hd
-      · have := directive_complete pos d n hn hr
+      · have := directive_complete (lns := lns) pos d n hn hr
         rw [hnone] at this; cases this
       · exact ih hd
 
 /-- `findDefinitionTarget` only ever answers with a name-bearing node under the cursor. -/
-theorem target_sound (j : Journal) (pos : LPos) (t : Target) (h : findDefinitionTarget j pos = some t) :
-    ∃ n ∈ treeTNodes j, positionInRange pos n.range = true ∧ t = tgt n := by
-  simp only [findDefinitionTarget] at h
+theorem target_sound (j : Journal) (pos : LPos) (t : Target) (h : findDefinitionTargetR lns j pos = some t) :
+    ∃ n ∈ treeTNodes j, positionInRange pos n.range = true ∧ t = tgt lns n := by
+  simp only [findDefinitionTargetR] at h
   split at h
   · rename_i t' ht'
     simp only [Option.some.injEq] at h
@@ -750,14 +826,14 @@ theorem target_sound (j : Journal) (pos : LPos) (t : Target) (h : findDefinition
 
 /-- … and it answers whenever some name-bearing node is under the cursor. -/
 theorem target_complete (j : Journal) (pos : LPos) (n : TNode) (hn : n ∈ treeTNodes j)
-    (hr : positionInRange pos n.range = true) : (findDefinitionTarget j pos).isSome = true := by
-  simp only [findDefinitionTarget]
+    (hr : positionInRange pos n.range = true) : (findDefinitionTargetR lns j pos).isSome = true := by
+  simp only [findDefinitionTargetR]
   split
   · rfl
   · rename_i hnone
     simp only [treeTNodes, List.mem_append, List.mem_flatMap] at hn
     rcases hn with ⟨tx, htx, hn⟩ | ⟨d, hd, hn⟩
-    · have := txs_complete pos _ tx n htx hn hr
+    · have := txs_complete (lns := lns) pos _ tx n htx hn hr
       rw [hnone] at this; cases this
     · exact directives_complete pos _ d n hd hn hr
 
@@ -859,29 +935,29 @@ theorem applyEdits_eq_subst {α} (l : List α) (new : List α) (spans : List (Na
 /-! ### per-file search = nodes of the symbol; decidable faithfulness -/
 
 /-- The three searches of `findReferences`, by symbol kind. -/
-def locsOf (kind : Kind) (name : Bytes) (incl : Bool) : Path → Journal → List Loc :=
+def locsOf (texts : Texts) (kind : Kind) (name : Bytes) (incl : Bool) : Path → Journal → List Loc :=
   match kind with
-  | .account => accountLocs name incl
-  | .commodity => commodityLocs name incl
-  | .payee => payeeLocs name
+  | .account => fun p j => accountLocs (texts p) name incl p j
+  | .commodity => fun p j => commodityLocs (texts p) name incl p j
+  | .payee => fun p j => payeeLocs (texts p) name p j
 
-theorem findReferences_eq (kind : Kind) (name : Bytes) (r : Option Resolved) (pp : Path)
+theorem findReferences_eq (texts : Texts) (kind : Kind) (name : Bytes) (r : Option Resolved) (pp : Path)
     (cur : Option Journal) (incl : Bool) :
-    findReferences kind name r pp cur incl =
-      sortAndDedup (collect (journalsWithPaths r pp cur) (locsOf kind name incl)) := by
+    findReferences texts kind name r pp cur incl =
+      sortAndDedup (collect (journalsWithPaths r pp cur) (locsOf texts kind name incl)) := by
   cases kind <;> rfl
 
 /-- Each search returns, for one file, exactly the tree's nodes of that symbol. -/
-theorem mem_locsOf (kind : Kind) (name : Bytes) (hne : name ≠ []) (incl : Bool) (path : Path)
+theorem mem_locsOf (texts : Texts) (kind : Kind) (name : Bytes) (hne : name ≠ []) (incl : Bool) (path : Path)
     (j : Journal) (l : Loc) :
-    l ∈ locsOf kind name incl path j ↔
-      ∃ s ∈ treeNodes j, s.isSym kind name incl = true ∧ l = ⟨path, s.range⟩ := by
-  have key : (∃ n ∈ treeTNodes j, Match n kind name incl ∧ l = locOf path n) ↔
-      ∃ s ∈ treeNodes j, s.isSym kind name incl = true ∧ l = ⟨path, s.range⟩ := by
+    l ∈ locsOf texts kind name incl path j ↔
+      ∃ s ∈ treeNodes (texts path) j, s.isSym kind name incl = true ∧ l = ⟨path, s.range⟩ := by
+  have key : (∃ n ∈ treeTNodes j, Match n kind name incl ∧ l = locOf (texts path) path n) ↔
+      ∃ s ∈ treeNodes (texts path) j, s.isSym kind name incl = true ∧ l = ⟨path, s.range⟩ := by
     simp only [treeNodes, List.mem_map]
     constructor
     · rintro ⟨n, hn, ⟨hk, hnm, hd⟩, hl⟩
-      refine ⟨n.toSpan, ⟨n, hn, rfl⟩, ?_, hl⟩
+      refine ⟨n.toSpan (texts path), ⟨n, hn, rfl⟩, ?_, hl⟩
       simp only [Span.isSym, TNode.toSpan, hk, hnm, decide_true, BEq.rfl, Bool.true_and,
         Bool.or_eq_true, Bool.not_eq_true']
       exact hd
@@ -895,8 +971,8 @@ theorem mem_locsOf (kind : Kind) (name : Bytes) (hne : name ≠ []) (incl : Bool
   | payee => rw [← key]; exact mem_payeeLocs name hne incl path j l
 
 
-theorem faithful_of_faithfulB (j : Journal) (spans : List Span) (h : faithfulB j spans = true) :
-    faithful j spans := by
+theorem faithful_of_faithfulB (j : Journal) (spans : List Span) (h : faithfulB lns j spans = true) :
+    faithful lns j spans := by
   simp only [faithfulB, Bool.and_eq_true, List.all_eq_true] at h
   obtain ⟨⟨h1, h2⟩, h3⟩ := h
   refine ⟨h1, fun s => ⟨fun hs => ?_, fun hs => ?_⟩⟩
@@ -909,5 +985,38 @@ theorem faithful_of_faithfulB (j : Journal) (spans : List Span) (h : faithfulB j
     obtain ⟨t, ht, rfl⟩ := this
     exact ht
 
+
+theorem takeU16_le' (l : HL.Text.Txt) (n : Nat) : HL.Text.takeU16 l n ≤ l.length := by
+  induction l generalizing n with
+  | nil => simp [HL.Text.takeU16]
+  | cons c cs ih =>
+    simp only [HL.Text.takeU16]; split
+    · omega
+    · have := ih (n - HL.Text.u16w c); simp; omega
+
+theorem cursorOK_of_cursorOKB (p : LPos) (h : cursorOKB lns p = true) : cursorOK lns p := by
+  intro ln hln
+  simp only [cursorOKB, hln, beq_iff_eq] at h
+  exact ⟨HL.Text.takeU16 ln p.char, takeU16_le' ln p.char, h.symm⟩
+
+/-- `fileMappers` of a workspace hand out every file's own text. -/
+theorem textsOf_mem (ws : Workspace) (hnd : (ws.files.map (·.path)).Nodup) (f : FileT) (hf : f ∈ ws.files) :
+    textsOf ws f.path = f.lns := by
+  unfold textsOf
+  have : ws.files.find? (fun g => g.path == f.path) = some f := by
+    generalize ws.files = fs at hnd hf
+    induction fs with
+    | nil => cases hf
+    | cons g gs ih =>
+      simp only [List.map_cons, List.nodup_cons, List.mem_map, not_exists, not_and] at hnd
+      simp only [List.mem_cons] at hf
+      simp only [List.find?_cons]
+      rcases hf with rfl | hf
+      · simp
+      · have hne : ¬ (g.path = f.path) := fun he => hnd.1 f hf he.symm
+        have : (g.path == f.path) = false := by simpa using hne
+        simp only [this]
+        exact ih hnd.2 hf
+  rw [this]
 
 end HL.Lemmas.Refs
